@@ -14,12 +14,23 @@ import (
 	"verifharness/mon"
 )
 
-func hxPeer(p string) string         { return hx.PeerOf[p] }
-func hxListenAddr(tr string) string  { return hx.ListenAddr(tr) }
-func isRaw(p string) bool            { return len(p) > 0 && p[0] == 'x' }
-func cookedOf(p string) string       { if isRaw(p) { return p[1:] }; return p }
-func be32(v uint32) []byte           { return hx.Be32(v) }
-func reqID(n int) uint32             { return 0x80000000 | uint32(n) }
+func trOr(tr string) string {
+	if tr == "" {
+		return "inproc"
+	}
+	return tr
+}
+func hxPeer(p string) string        { return hx.PeerOf[p] }
+func hxListenAddr(tr string) string { return hx.ListenAddr(tr) }
+func isRaw(p string) bool           { return len(p) > 0 && p[0] == 'x' }
+func cookedOf(p string) string {
+	if isRaw(p) {
+		return p[1:]
+	}
+	return p
+}
+func be32(v uint32) []byte { return hx.Be32(v) }
+func reqID(n int) uint32   { return 0x80000000 | uint32(n) }
 
 // dialAddr: an address a dialer object can be created for without anything listening.
 func dialAddr(tr string) string {
@@ -83,11 +94,32 @@ func awaitOrInconcl(c *mon.Case, what string, cond func() bool, o mon.AwaitOpts)
 // deadlines unset, retry/survey/reconnect times one hour).
 func blk(c *mon.Case, sig, what string, fn func() (interface{}, error)) (interface{}, error, bool) {
 	call := mon.Go(what, fn)
-	if !c.AwaitOrViolate(sig, what, call.Done, mon.AwaitOpts{}) {
-		return nil, nil, false
+	r := call.Wait(mon.AwaitOpts{})
+	switch r.V {
+	case mon.Done:
+		v, err, _ := call.Result()
+		return v, err, true
+	case mon.Stuck:
+		// the process is quiescent, so every pipe event hook has run: if a
+		// disconnect is what starved the call, the caller reports that instead
+		if stuckPre != nil && stuckPre() {
+			return nil, nil, false
+		}
+		c.Violate(sig, "%s: stuck after %v — every goroutine parked, identical over 5 samples:\n%s", what, r.Waited, r.Dump)
+	default:
+		c.Inconclusive("%s: not done after %v, process still active", what, r.Waited)
 	}
-	v, err, _ := call.Result()
-	return v, err, true
+	return nil, nil, false
+}
+
+// stuckPre, when set, is asked first when a blocking call is found stuck; true
+// means the caller has a more specific explanation (a Detached event) to report.
+var stuckPre func() bool
+
+func (lk *link) watchDetach() func() {
+	prev := stuckPre
+	stuckPre = func() bool { return lk.SW.nDetached()+lk.PW.nDetached() > 0 }
+	return func() { stuckPre = prev }
 }
 
 // sendData sends one datagram-style message (dgram/out shapes).
@@ -164,7 +196,7 @@ func echoPeer(p mangos.Socket, proto string, dup int) {
 
 // recvUntil receives on s until a message with the wanted body shows up
 // (older traffic still queued is skipped and counted).
-func recvUntil(c *mon.Case, sig, what string, s mangos.Socket, want []byte) (*mangos.Message, int, bool) {
+func recvUntil(c *mon.Case, sig, sigErr, what string, s mangos.Socket, want []byte) (*mangos.Message, int, bool) {
 	skipped := 0
 	for i := 0; i < 100000; i++ {
 		v, err, ok := blk(c, sig, what, func() (interface{}, error) { return s.RecvMsg() })
@@ -172,7 +204,7 @@ func recvUntil(c *mon.Case, sig, what string, s mangos.Socket, want []byte) (*ma
 			return nil, skipped, false
 		}
 		if err != nil {
-			c.Violate(sig+"-error", "%s: RecvMsg returned %v", what, err)
+			c.Violate(sigErr, "%s: RecvMsg returned %v", what, err)
 			return nil, skipped, false
 		}
 		m := v.(*mangos.Message)
@@ -186,23 +218,54 @@ func recvUntil(c *mon.Case, sig, what string, s mangos.Socket, want []byte) (*ma
 	return nil, skipped, false
 }
 
+// recvResend receives on s until the wanted body shows up.  The peer's send runs
+// beside it (under back-pressure it can only finish once s is being drained) and,
+// when resend is set, is repeated before each further Recv: a best-effort
+// receiver whose queue was still full of older traffic drops the newest arrival,
+// so a single send could legitimately be lost.
+func recvResend(c *mon.Case, sig, sigErr, sigSendErr, what string, s mangos.Socket, want []byte, send func() error, resend bool) (*mangos.Message, bool) {
+	var sc *mon.Call
+	for i := 0; i < 100000; i++ {
+		if sc == nil || (resend && sc.Done()) {
+			if sc != nil {
+				if _, err, _ := sc.Result(); err != nil {
+					c.Violate(sigSendErr, "%s: the peer's Send returned %v", what, err)
+					return nil, false
+				}
+			}
+			sc = mon.Go("peer Send", func() (interface{}, error) { return nil, send() })
+		}
+		v, err, ok := blk(c, sig, what, func() (interface{}, error) { return s.RecvMsg() })
+		if !ok {
+			return nil, false
+		}
+		if err != nil {
+			c.Violate(sigErr, "%s: RecvMsg returned %v", what, err)
+			return nil, false
+		}
+		m := v.(*mangos.Message)
+		if bytes.Equal(m.Body, want) {
+			return m, true
+		}
+		m.Free()
+	}
+	c.Inconclusive("%s: 100000 messages without the sentinel", what)
+	return nil, false
+}
+
 var exchN int
 
 // exchange checks that S (proto) and its peer P (pproto) can still do what the
 // pattern offers, in every direction it offers.  sig prefixes the signatures.
 // For init shapes an echo service must already run on P (echoPeer).
-func exchange(c *mon.Case, sig string, lk *link, proto, pproto string) bool {
+func exchange(c *mon.Case, kind, label string, lk *link, proto, pproto string) bool {
+	sg := func(suffix string) string { return kind + "-" + suffix + ":" + label }
 	exchN++
 	tag := []byte(fmt.Sprintf("c19-x-%d-%s", exchN, hx.Uniq("m")))
 	S, P := lk.S, lk.P
 	in := func() bool {
-		if _, err, ok := blk(c, sig+"-send-stuck", pproto+" peer Send", func() (interface{}, error) { return nil, sendData(P, pproto, tag) }); !ok || err != nil {
-			if ok {
-				c.Violate(sig+"-peer-send-error", "peer %s Send returned %v", pproto, err)
-			}
-			return false
-		}
-		m, _, ok := recvUntil(c, sig+"-recv-stuck", fmt.Sprintf("%s Recv of a message the %s peer sent", proto, pproto), S, tag)
+		m, ok := recvResend(c, sg("recv-stuck"), sg("recv-error"), sg("peer-send-error"), fmt.Sprintf("%s Recv of a message the %s peer sent", proto, pproto), S, tag,
+			func() error { return sendData(P, pproto, tag) }, true)
 		if ok {
 			m.Free()
 			c.Count("exchange_messages", 1)
@@ -211,13 +274,13 @@ func exchange(c *mon.Case, sig string, lk *link, proto, pproto string) bool {
 	}
 	out := func() bool {
 		t2 := append(append([]byte{}, tag...), "-out"...)
-		if _, err, ok := blk(c, sig+"-send-stuck", proto+" Send", func() (interface{}, error) { return nil, sendData(S, proto, t2) }); !ok || err != nil {
+		if _, err, ok := blk(c, sg("send-stuck"), proto+" Send", func() (interface{}, error) { return nil, sendData(S, proto, t2) }); !ok || err != nil {
 			if ok {
-				c.Violate(sig+"-send-error", "%s Send returned %v", proto, err)
+				c.Violate(sg("send-error"), "%s Send returned %v", proto, err)
 			}
 			return false
 		}
-		m, _, ok := recvUntil(c, sig+"-peer-recv-stuck", fmt.Sprintf("%s peer Recv of a message %s sent", pproto, proto), P, t2)
+		m, _, ok := recvUntil(c, sg("peer-recv-stuck"), sg("peer-recv-error"), fmt.Sprintf("%s peer Recv of a message %s sent", pproto, proto), P, t2)
 		if ok {
 			m.Free()
 			c.Count("exchange_messages", 1)
@@ -232,39 +295,35 @@ func exchange(c *mon.Case, sig string, lk *link, proto, pproto string) bool {
 	case "out":
 		return out()
 	case "init":
-		if _, err, ok := blk(c, sig+"-send-stuck", proto+" Send(request)", func() (interface{}, error) { return nil, sendReq(S, proto, exchN, tag) }); !ok || err != nil {
+		if _, err, ok := blk(c, sg("send-stuck"), proto+" Send(request)", func() (interface{}, error) { return nil, sendReq(S, proto, exchN, tag) }); !ok || err != nil {
 			if ok {
-				c.Violate(sig+"-send-error", "%s Send returned %v", proto, err)
+				c.Violate(sg("send-error"), "%s Send returned %v", proto, err)
 			}
 			return false
 		}
-		m, _, ok := recvUntil(c, sig+"-recv-stuck", fmt.Sprintf("%s Recv of the reply echoed by the %s peer", proto, pproto), S, tag)
+		m, _, ok := recvUntil(c, sg("recv-stuck"), sg("recv-error"), fmt.Sprintf("%s Recv of the reply echoed by the %s peer", proto, pproto), S, tag)
 		if ok {
 			m.Free()
 			c.Count("exchange_messages", 2)
 		}
 		return ok
 	case "resp":
-		if _, err, ok := blk(c, sig+"-send-stuck", pproto+" peer Send(request)", func() (interface{}, error) { return nil, sendReq(P, pproto, exchN, tag) }); !ok || err != nil {
-			if ok {
-				c.Violate(sig+"-peer-send-error", "peer %s Send returned %v", pproto, err)
-			}
-			return false
-		}
-		rq, _, ok := recvUntil(c, sig+"-recv-stuck", fmt.Sprintf("%s Recv of a request the %s peer sent", proto, pproto), S, tag)
+		n := exchN
+		rq, ok := recvResend(c, sg("recv-stuck"), sg("recv-error"), sg("peer-send-error"), fmt.Sprintf("%s Recv of a request the %s peer sent", proto, pproto), S, tag,
+			func() error { return sendReq(P, pproto, n, tag) }, isRaw(pproto))
 		if !ok {
 			return false
 		}
 		t2 := append(append([]byte{}, tag...), "-re"...)
-		_, err, ok := blk(c, sig+"-send-stuck", proto+" Send(reply)", func() (interface{}, error) { return nil, reply(S, proto, rq, t2) })
+		_, err, ok := blk(c, sg("send-stuck"), proto+" Send(reply)", func() (interface{}, error) { return nil, reply(S, proto, rq, t2) })
 		rq.Free()
 		if !ok || err != nil {
 			if ok {
-				c.Violate(sig+"-send-error", "%s Send(reply) returned %v", proto, err)
+				c.Violate(sg("send-error"), "%s Send(reply) returned %v", proto, err)
 			}
 			return false
 		}
-		m, _, ok := recvUntil(c, sig+"-peer-recv-stuck", fmt.Sprintf("%s peer Recv of the reply", pproto), P, t2)
+		m, _, ok := recvUntil(c, sg("peer-recv-stuck"), sg("peer-recv-error"), fmt.Sprintf("%s peer Recv of the reply", pproto), P, t2)
 		if ok {
 			m.Free()
 			c.Count("exchange_messages", 2)
@@ -277,14 +336,14 @@ func exchange(c *mon.Case, sig string, lk *link, proto, pproto string) bool {
 // linkFor connects S (proto) with a peer suited for exchange(): cooked partner,
 // subscribed / patient / echoing as the shape needs.  raw=true picks a raw peer
 // for the request/reply shapes (free-flowing traffic, used by resize).
-func linkFor(c *mon.Case, proto, tr string, rawPeer bool, echoDup int) (*link, string) {
+func linkFor(c *mon.Case, proto, tr string, rawPeer bool, echoDup int, sDials bool) (*link, string) {
 	pproto := hxPeer(proto)
 	if rawPeer {
 		if rp, ok := rawPeerOf[proto]; ok {
 			pproto = rp
 		}
 	}
-	lk := connect(c, proto, pproto, tr, false)
+	lk := connect(c, proto, pproto, tr, sDials)
 	if lk == nil {
 		return nil, pproto
 	}
